@@ -353,9 +353,9 @@ def run():
             "core": ("NamesAB", _cfg("NamesAB", '{"var","let"}', "{}", '{"plain"}', '{"plain"}', '{"decl","iife"}', False, False, '{"blk"}',
                                      5 if thorough else 4, 3 if thorough else 2, "careful", inv), {}),
             # exhaustive: a function with a parameter, every way of mentioning a name inside it, evaluated mentions outside it
-            "forms": ("NamesAB", (_cfg("NamesAB", '{"const"}', '{"obj","objdef","objkey","arr"}', ALLREF, top, '{"iife","arrow"}', False, False,
+            "forms": ("NamesAB", (_cfg("NamesAB", '{"const"}', '{"obj","objdef","objkey","arr"}', ALLREF, top, '{"iife","arrow"}', False, True,
                                        '{"catch","for"}', 4, 1, "careful", inv, topdecl=False) if thorough else
-                                  _cfg("NamesAB", "{}", '{"objdef","objkey"}', ALLREF, '{"plain","set"}', '{"iife"}', False, False, "{}", 4, 1,
+                                  _cfg("NamesAB", "{}", '{"objdef","objkey"}', ALLREF, '{"plain","set"}', '{"iife"}', False, True, "{}", 4, 1,
                                        "careful", inv, topdecl=False)), {}),
             # long random programs over everything
             "sim": ("NamesABC", _cfg("NamesABC", '{"var","let","const"}', '{"obj","objdef","objkey","arr"}', ALLREF, ALLREF, '{"decl","iife","arrow"}',
@@ -387,7 +387,7 @@ def run():
             res = dict(ex.map(one, jobs.items()))
 
         what = {"core": "MC: every program over {a,b} x var/let/plain reference/function/block up to %d items" % (5 if thorough else 4),
-                "forms": "MC: every program of up to 4 items over {a,b}: a function (thorough: + arrow, catch, for-of, const, all destructuring forms) x every reference form and {k: n} / {n = v} patterns inside x evaluated references outside",
+                "forms": "MC: every program of up to 4 items over {a,b}: a function with or without parameter (thorough: + arrow, catch, for-of, const, all destructuring forms) x every reference form and {k: n} / {n = v} patterns inside x evaluated references outside",
                 "dflt": "MC: every program of up to 4 items over {a,b}: function declaration / expression / arrow whose parameter defaults to the other name",
                 "scoped": "MC: the binding-based renamer satisfies the contract"}
         for nm, w in what.items():
